@@ -1,5 +1,5 @@
 \* thorough exhaustive: 2 transactions x (Begin + <=3 Set/Get/Commit) = 4 operations each, interleaved in every order,
-\* 12-entry write menu, 1 snap, 1 revision, <=1 snapshot operation anywhere
+\* 8-entry write menu, 1 snap, 1 revision, <=1 snapshot operation anywhere
 INIT Init
 NEXT Next
 CONSTANTS
@@ -8,7 +8,7 @@ CONSTANTS
   Txns = {t1, t2}
   Snaps = {"core"}
   Revs = {1}
-  SetMenu <- MenuQuick
+  SetMenu <- Menu8
   GetPaths <- GetOne
   ChkPaths <- PathsUpTo3
   MaxOps = 3
